@@ -13,6 +13,8 @@ import (
 	"github.com/google/go-cmp/cmp"
 	"github.com/openconfig/gribigo/aft"
 	"github.com/openconfig/ygot/ygot"
+	"google.golang.org/protobuf/encoding/prototext"
+	"google.golang.org/protobuf/proto"
 	"google.golang.org/protobuf/testing/protocmp"
 
 	aftpb "github.com/openconfig/gribi/v1/proto/gribi_aft"
@@ -188,6 +190,7 @@ func TestVfModelAgreement(t *testing.T) {
 	}
 	r := rand.New(rand.NewSource(seed))
 	agree := 0
+	nRT := 0
 	for i := 0; i < n; i++ {
 		a := vfRandAfts(r)
 		if vfDupMembersDiffer(a) {
@@ -240,6 +243,21 @@ func TestVfModelAgreement(t *testing.T) {
 				continue
 			}
 		}
+		// C07 on the real code alone: an input that is already in canonical form (the model's round trip is the
+		// identity on it - no empty containers, no duplicate members ...) must come back from the REAL round trip
+		// candidateRIB -> ConcreteXXXProto exactly as it was programmed.  A failure is reported separately
+		// (VFC07-ROUNDTRIP): it shows, on a concrete payload, that Get would not return what was programmed.
+		if bad := vfRoundTripIdentity(a, real, model); bad != "" {
+			nRT++
+			if nRT <= 3 {
+				t.Errorf("VFC07-ROUNDTRIP %s", bad)
+				if out := os.Getenv("VF_C07_FAIL_OUT"); out != "" && nRT == 1 {
+					b, _ := prototext.Marshal(a)
+					os.WriteFile(out, b, 0o644)
+				}
+			}
+			continue
+		}
 		// inverse direction
 		for _, e := range real.GetAfts().Ipv4Entry {
 			p1, x1 := ConcreteIPv4Proto(e)
@@ -279,6 +297,94 @@ func TestVfModelAgreement(t *testing.T) {
 		agree++
 	}
 	fmt.Printf("VFAGREE %d/%d\n", agree, n)
+}
+
+// vfRoundTripIdentity: for a canonical single-entry input a, does the real round trip return a?  ("" = yes or
+// not applicable; otherwise a description).  Canonical: the MODEL's round trip returns a itself.
+func vfRoundTripIdentity(a *aftpb.Afts, real, model *aft.RIB) string {
+	sortNHG := protocmp.SortRepeatedFields(&aftpb.Afts_NextHopGroup{}, "next_hop")
+	eq := func(x, y proto.Message) bool { return cmp.Diff(x, y, protocmp.Transform(), sortNHG) == "" }
+	for _, in := range a.Ipv4Entry {
+		me, re := model.GetAfts().Ipv4Entry[in.Prefix], real.GetAfts().Ipv4Entry[in.Prefix]
+		if me == nil || re == nil {
+			continue
+		}
+		if mp, err := vfModelConcreteIPv4Proto(me); err == nil && eq(mp, in) {
+			if rp, err := ConcreteIPv4Proto(re); err != nil || !eq(rp, in) {
+				return fmt.Sprintf("ipv4 entry programmed as %v comes back as %v (err %v)", in, rp, err)
+			}
+		}
+	}
+	for _, in := range a.Ipv6Entry {
+		me, re := model.GetAfts().Ipv6Entry[in.Prefix], real.GetAfts().Ipv6Entry[in.Prefix]
+		if me == nil || re == nil {
+			continue
+		}
+		if mp, err := vfModelConcreteIPv6Proto(me); err == nil && eq(mp, in) {
+			if rp, err := ConcreteIPv6Proto(re); err != nil || !eq(rp, in) {
+				return fmt.Sprintf("ipv6 entry programmed as %v comes back as %v (err %v)", in, rp, err)
+			}
+		}
+	}
+	for _, in := range a.LabelEntry {
+		k := aft.UnionUint32(uint32(in.GetLabelUint64()))
+		me, re := model.GetAfts().LabelEntry[k], real.GetAfts().LabelEntry[k]
+		if me == nil || re == nil {
+			continue
+		}
+		if mp, err := vfModelConcreteMPLSProto(me); err == nil && eq(mp, in) {
+			if rp, err := ConcreteMPLSProto(re); err != nil || !eq(rp, in) {
+				return fmt.Sprintf("label entry programmed as %v comes back as %v (err %v)", in, rp, err)
+			}
+		}
+	}
+	for _, in := range a.NextHopGroup {
+		me, re := model.GetAfts().NextHopGroup[in.Id], real.GetAfts().NextHopGroup[in.Id]
+		if me == nil || re == nil {
+			continue
+		}
+		if mp, err := vfModelConcreteNextHopGroupProto(me); err == nil && eq(mp, in) {
+			if rp, err := ConcreteNextHopGroupProto(re); err != nil || !eq(rp, in) {
+				return fmt.Sprintf("next-hop-group programmed as %v comes back as %v (err %v)", in, rp, err)
+			}
+		}
+	}
+	for _, in := range a.NextHop {
+		me, re := model.GetAfts().NextHop[in.Index], real.GetAfts().NextHop[in.Index]
+		if me == nil || re == nil {
+			continue
+		}
+		if mp, err := vfModelConcreteNextHopProto(me); err == nil && eq(mp, in) {
+			if rp, err := ConcreteNextHopProto(re); err != nil || !eq(rp, in) {
+				return fmt.Sprintf("next-hop programmed as %v comes back as %v (err %v)", in, rp, err)
+			}
+		}
+	}
+	return ""
+}
+
+// TestVfRoundTripReplay re-runs the real round trip on the payload saved by a VFC07-ROUNDTRIP failure ($VF_C07_PAYLOAD).
+func TestVfRoundTripReplay(t *testing.T) {
+	p := os.Getenv("VF_C07_PAYLOAD")
+	if p == "" {
+		t.Skip("no VF_C07_PAYLOAD")
+	}
+	b, err := os.ReadFile(p)
+	if err != nil {
+		t.Fatal(err)
+	}
+	a := &aftpb.Afts{}
+	if err := prototext.Unmarshal(b, a); err != nil {
+		t.Fatal(err)
+	}
+	real, rerr, rpanic := vfCatchCandidate(candidateRIB, a)
+	model, merr, mpanic := vfCatchCandidate(vfModelCandidateRIB, a)
+	if rerr != nil || merr != nil || rpanic || mpanic {
+		t.Skipf("payload not accepted: %v %v", rerr, merr)
+	}
+	if bad := vfRoundTripIdentity(a, real, model); bad != "" {
+		t.Fatalf("VFC07-ROUNDTRIP %s", bad)
+	}
 }
 
 func vfCatchCandidate(f func(*aftpb.Afts) (*aft.RIB, error), a *aftpb.Afts) (r *aft.RIB, err error, panicked bool) {
